@@ -171,6 +171,57 @@ pub fn run_check(replay: Option<Value>) -> i32 {
         out.sample = Some(desc);
         Some(out)
     });
+    // very long runs (more than 1.3e5 accepted steps, forced by max_step / RK4's fixed step): output options
+    // must not bring a step budget or anything else that depends on the length of the run
+    let ldims = vec![dim("method", &M6.iter().map(|m| mname(*m)).collect::<Vec<_>>()), dim("direction", &["forward", "backward(reflected)"])];
+    lattice(&mut rep, "long", &ldims, only.as_deref(), |key, idx| {
+        let m = M6[idx[0]];
+        let p0 = base(Base::Harmonic(1.0));
+        let p = if idx[1] == 1 { reflect(&p0) } else { p0 };
+        let xend = if idx[1] == 1 { -13.0 } else { 13.0 };
+        let mut c0 = Cfg::new(m, 0.0, xend, &p.y0).tol(1e-6, 1e-8);
+        c0.user_jac = true;
+        if m == Method::RK4 {
+            c0.first_step = Some(xend / 130_000.5);
+        } else {
+            c0.max_step = Some(1e-4);
+        }
+        c0.budget = 50_000_000;
+        let desc = json!({"key": key, "point": describe(&ldims, idx), "cfg": c0.json(&p.name)});
+        let mut out = CaseOut::default();
+        let plain = run(&p, &c0);
+        let ps = match &plain.out {
+            Outcome::Ok(s) if s.status == Status::Success && s.naccpt > 100_000 => s,
+            _ => {
+                out.violations.push(Violation::new(key, "outcome", format!("plain long run ended with {} ({} accepted steps)", plain.outcome_name(), plain.sol().map(|s| s.naccpt).unwrap_or(0)), desc).with("method", mname(m)));
+                return Some(out);
+            }
+        };
+        out.events = plain.st.n_ode;
+        for (label, dense, te) in [("{dense}", true, false), ("{t_eval}", false, true), ("{t_eval dense}", true, true)] {
+            let mut c = c0.clone();
+            c.dense = dense;
+            if te {
+                c.t_eval = Some((0..=4).map(|i| xend * i as f64 / 4.0).collect());
+            }
+            let r = run(&p, &c);
+            out.events += r.st.n_ode;
+            match &r.out {
+                Outcome::Ok(s) => {
+                    let st = |s: &Solution| (s.nfev, s.njev, s.nlu, s.nstep, s.naccpt, s.nrejct);
+                    if s.status != ps.status || r.st.fp != plain.st.fp || st(s) != st(ps) {
+                        out.violations.push(Violation::new(key, "integration-perturbed", format!("subset {} of a {}-step run: status {:?} (plain {:?}), statistics {:?} (plain {:?}), RHS record {}", label, ps.naccpt, s.status, ps.status, st(s), st(ps), if r.st.fp == plain.st.fp { "identical" } else { "differs" }), desc.clone()).with("method", mname(m)));
+                    }
+                    out.validated += 1;
+                }
+                _ => out.violations.push(Violation::new(key, "outcome", format!("subset {} ended with {}", label, r.outcome_name()), desc.clone()).with("method", mname(m))),
+            }
+        }
+        out.tag("long-run");
+        out.fp = Some(plain.st.fp.as_u128() ^ 0x10);
+        out.sample = Some(desc);
+        Some(out)
+    });
     if only.is_some() {
         for v in &rep.violations {
             println!("replay: VIOLATED [{}]: {}\n{}", v.sig["check"], v.msg, serde_json::to_string_pretty(&v.case).unwrap());
@@ -181,6 +232,7 @@ pub fn run_check(replay: Option<Value>) -> i32 {
         return if rep.violations.is_empty() { 0 } else { 1 };
     }
     rep.require("eight-subsets", 100);
-    rep.rule = "for every lattice point the plain run and all 8 subsets of {t_eval, dense_output, non-terminal events} are run twice; oracle: identical 128-bit fingerprint of every non-Jacobian RHS call (time and state bits: the complete record of the integration), identical statistics, identical accepted steps and states when no t_eval is given, final state, repeatability; distinct = distinct plain-run fingerprints".into();
+    rep.require("long-run", 6);
+    rep.rule = "for every lattice point the plain run and all 8 subsets of {t_eval, dense_output, non-terminal events} are run twice; oracle: identical 128-bit fingerprint of every non-Jacobian RHS call (time and state bits: the complete record of the integration), identical statistics, identical accepted steps and states when no t_eval is given, final state, repeatability; runs of more than 1.3e5 accepted steps with {dense}, {t_eval}, {t_eval dense}; distinct = distinct plain-run fingerprints".into();
     rep.finish()
 }
